@@ -1017,7 +1017,7 @@ class Engine:
             if m is not None:
                 return m
         # ---- opaque call (generic trait method, or a local callee the rule keeps opaque)
-        generic_trait_call = res is None and fn.get('trait') is not None
+        generic_trait_call = (res is None or res.get('kind') == 'virtual') and fn.get('trait') is not None
         if generic_trait_call or (target is not None and target in self.opaque):
             vals = [self.operand(a, st, fr) for a in t['args']]
             rec = {
